@@ -286,3 +286,37 @@ Proof.
   - rewrite <- Hdw. intros j u Hj Hjw Hu Ho. apply (Hother j u Hj Hjw Hu).
     apply (other_write_regs c2 c1); auto.
 Qed.
+
+(* ------------------------------------------------------------------ a stray write is an idle cycle *)
+
+Definition no_write (i : inp) : inp :=
+  {| i_addr := i_addr i; i_rstb := i_rstb i; i_wstb := false; i_wdata := i_wdata i; i_rvals := i_rvals i |}.
+
+(* A write strobe at an address outside every writable register leaves the machine in exactly the state
+   the same cycle without the strobe would: no chunk, no strobe register, nothing on the read path
+   differs, now or later. *)
+Theorem stray_write_is_idle c s i : wf_cfg c ->
+  (forall r, In r (c_regs c) -> r_wr r = true -> ~ (r_start r <= i_addr i < r_stop r)) ->
+  next c s i = next c s (no_write i).
+Proof.
+  intros Hwf Hstray. unfold next. f_equal.
+  - apply map_ext_in. intros o Ho. f_equal. unfold wdata_next.
+    assert (E : forall i', wen c (no_write i') o = false) by (intros; reflexivity).
+    rewrite E. destruct (wen c i o) eqn:Ew; [exfalso|reflexivity].
+    apply wen_spec in Ew; auto. destruct Ew as (_ & r & Hr & Hwr & Ha & _).
+    exact (Hstray r Hr Hwr Ha).
+  - apply map_ext_in. intros r Hr. unfold wstb_next. cbn [no_write i_wstb i_addr].
+    destruct (r_wr r) eqn:Hwr; [|reflexivity].
+    rewrite andb_false_r. cbn [andb].
+    destruct (i_wstb i); [|reflexivity]. cbn [andb].
+    apply Z.eqb_neq. intros Ea.
+    destruct Hwf as (_ & Hl & _). pose proof (layout_from_In _ _ _ Hl Hr).
+    apply (Hstray r Hr Hwr). lia.
+Qed.
+
+(* the write inputs never reach the read path or the read strobes *)
+Lemma write_inputs_not_on_read_path c s i w d :
+  let i' := {| i_addr := i_addr i; i_rstb := i_rstb i; i_wstb := w; i_wdata := d; i_rvals := i_rvals i |} in
+  s_rdata (next c s i') = s_rdata (next c s i) /\ s_ren (next c s i') = s_ren (next c s i) /\
+  o_rstb (out c s i') = o_rstb (out c s i).
+Proof. repeat split; reflexivity. Qed.
